@@ -29,6 +29,9 @@ enum Step {
     FailBlock(u64),
     /// node answers for the following steps: (tx, getraw, send)
     Script(Vec<(u64, u8, i32)>),
+    /// the chain moves WHILE THE TOWER IS DOWN: when the step before this one is the one that crashes, these
+    /// (Mine / Reorg) steps run between the kill and the restart; otherwise they run in place
+    WhileDown(Vec<Step>),
 }
 
 struct Sys {
@@ -37,6 +40,14 @@ struct Sys {
     mon: Option<MonitorThread>,
     script: Vec<(u64, u8, i32)>,
     sends: Vec<i64>,
+    /// the node answers consistently with its chain: a transaction confirmed in the active chain is reported
+    /// confirmed by getrawtransaction and refused with -27 by sendrawtransaction; and a penalty (ids 100..400)
+    /// can only be mined once somebody has given it to the node
+    consistent: bool,
+    /// blocks are mined exactly as listed (the oracle run over an already resolved chain)
+    nofilter: bool,
+    /// the chain steps as actually performed (Mine / Reorg with the transactions really mined)
+    resolved: Vec<Step>,
 }
 
 fn work_dir(tag: &str) -> PathBuf {
@@ -49,7 +60,43 @@ impl Sys {
         let w = World::new(cfg, dir, init, vec![0, 1, 2]);
         let chain = SimChain::from_init(init);
         let mon = Some(MonitorThread::spawn(chain.source.clone(), chain.tip_header(), &w));
-        Sys { w, chain, mon, script: vec![], sends: vec![] }
+        Sys { w, chain, mon, script: vec![], sends: vec![], consistent: false, nofilter: false, resolved: vec![] }
+    }
+
+    fn active_txs(&self) -> Vec<u64> {
+        self.chain.active.iter().filter_map(|(_, h)| self.chain.ids.get(h)).flat_map(|(_, t)| t.iter().copied()).collect()
+    }
+
+    /// the node's answers for the next step
+    fn effective_script(&self) -> Vec<(u64, u8, i32)> {
+        let mut sc = self.script.clone();
+        if self.consistent {
+            for t in self.active_txs() {
+                sc.retain(|e| e.0 != t);
+                sc.push((t, 1, -27));
+            }
+        }
+        sc
+    }
+
+    /// the transactions a block listed as `txs` really gets
+    fn resolve(&self, txs: &[u64], also: &[u64]) -> Vec<u64> {
+        if !self.consistent || self.nofilter {
+            return txs.to_vec();
+        }
+        let active = self.active_txs();
+        let mut out: Vec<u64> = vec![];
+        for t in txs {
+            let penalty = (100..400).contains(t);
+            if active.contains(t) || also.contains(t) || out.contains(t) {
+                continue;
+            }
+            if penalty && !self.sends.contains(&(*t as i64)) {
+                continue;
+            }
+            out.push(*t);
+        }
+        out
     }
 
     fn drain_sends(&mut self) {
@@ -73,11 +120,31 @@ impl Sys {
                 Ok(())
             }
             Step::Mine(txs) => {
-                self.chain.mine(&mut self.w, txs);
+                let t = self.resolve(txs, &[]);
+                self.chain.mine(&mut self.w, &t);
+                self.resolved.push(Step::Mine(t));
                 Ok(())
             }
             Step::Reorg(d, blocks) => {
-                self.chain.reorg(&mut self.w, *d, blocks);
+                // the transactions of the blocks that go away are free again
+                let depth = (*d).min(self.chain.active.len() - 1);
+                let saved: Vec<(u64, bitcoin::BlockHash)> = self.chain.active.split_off(self.chain.active.len() - depth);
+                let mut done: Vec<u64> = vec![];
+                let mut rb: Vec<Vec<u64>> = vec![];
+                for b in blocks {
+                    let t = self.resolve(b, &done);
+                    done.extend(t.iter().copied());
+                    rb.push(t);
+                }
+                self.chain.active.extend(saved);
+                self.chain.reorg(&mut self.w, *d, &rb);
+                self.resolved.push(Step::Reorg(*d, rb));
+                Ok(())
+            }
+            Step::WhileDown(inner) => {
+                for st in inner {
+                    let _ = self.step(st, out);
+                }
                 Ok(())
             }
             Step::Add(signer, loc, key, pay, len) => {
@@ -85,7 +152,7 @@ impl Sys {
                 self.step(&Step::Api(Op::Add { signer: *signer, class: 0, loc: *loc, blob, delay: 20 }), out)
             }
             Step::Api(op) => {
-                let sc = self.script.clone();
+                let sc = self.effective_script();
                 let ok = self.w.exec(op, &sc, out);
                 // exec replaced the node's log at begin_step: collect this step's sends
                 self.drain_sends();
@@ -97,7 +164,7 @@ impl Sys {
             }
             Step::Poll => {
                 // the script applies to the RPCs of the poll as well
-                let sc = self.script.clone();
+                let sc = self.effective_script();
                 let sm = sc
                     .iter()
                     .map(|(tx, g, s)| {
@@ -379,15 +446,137 @@ fn templates(rng: &mut Rng, thorough: bool) -> Vec<(Cfg, Vec<Step>)> {
     v
 }
 
-fn run(hist: usize, cfg: Cfg, steps: &[Step], crash_at: Option<u64>, skip: Option<usize>, poll_after: Option<usize>, init: &[(u64, bitcoin::Block)], out: &mut dyn Write) -> u64 {
+
+/// History ids of the family "the chain moves while the tower is down" start here.
+const DOWN_BASE: usize = 5000;
+
+/// Scripted (quick) and random (thorough) histories in which, between the kill and the restart, the node's chain
+/// moves: the penalty the tower had sent gets confirmed, other disputes / unrelated blocks are mined, the block
+/// being processed is reorged away. The kill is placed at every crash point of the step in front of `WhileDown`
+/// (the poll that answered the breach, or the late add_appointment whose trigger was in the cache).
+fn down_family(rng: &mut Rng, thorough: bool) -> Vec<(Cfg, Vec<Step>)> {
+    let cfg = Cfg { slots: 20, duration: 300, delta: 5 };
+    let reg = |u: u64| Step::Api(Op::Register(u));
+    let down = |v: Vec<Step>| Step::WhileDown(v);
+    let mut v: Vec<(Cfg, Vec<Step>)> = Vec::new();
+    // 0: the penalty is confirmed while the tower is down
+    v.push((cfg, vec![reg(0), Step::Add(0, 1, 1, 101, 0), Step::Mine(vec![1]), Step::Poll, down(vec![Step::Mine(vec![101])]), Step::Poll,
+                      Step::Mine(vec![101]), Step::Poll, Step::Mine(vec![]), Step::Poll]));
+    // 1: another dispute together with the penalty, then an unrelated block
+    v.push((cfg, vec![reg(0), reg(1), Step::Add(0, 1, 1, 101, 0), Step::Add(1, 2, 2, 102, 300), Step::Mine(vec![1]), Step::Poll,
+                      down(vec![Step::Mine(vec![2, 101]), Step::Mine(vec![600])]), Step::Poll, Step::Mine(vec![101, 102]), Step::Poll,
+                      Step::Mine(vec![102]), Step::Poll]));
+    // 2: the block being processed is reorged away; the new chain has the dispute again, then the penalty
+    v.push((cfg, vec![reg(0), Step::Add(0, 1, 1, 101, 0), Step::Mine(vec![1]), Step::Poll, down(vec![Step::Reorg(1, vec![vec![1], vec![101]])]),
+                      Step::Poll, Step::Mine(vec![101]), Step::Poll, Step::Mine(vec![]), Step::Poll]));
+    // 3: ... reorged away and the dispute only comes back later
+    v.push((cfg, vec![reg(0), Step::Add(0, 1, 1, 101, 0), Step::Mine(vec![1]), Step::Poll, down(vec![Step::Reorg(1, vec![vec![], vec![600]])]),
+                      Step::Poll, Step::Mine(vec![1]), Step::Poll, Step::Mine(vec![101]), Step::Poll]));
+    // 4: a late appointment (trigger in the cache) killed while being handed to the responder; the penalty confirms meanwhile
+    v.push((cfg, vec![reg(0), Step::Mine(vec![1]), Step::Poll, Step::Add(0, 1, 1, 101, 0), down(vec![Step::Mine(vec![101])]), Step::Poll,
+                      Step::Mine(vec![101]), Step::Poll, Step::Mine(vec![]), Step::Poll]));
+    // 5: ... and the block that held its trigger is reorged meanwhile
+    v.push((cfg, vec![reg(0), Step::Add(0, 2, 2, 102, 0), Step::Mine(vec![1]), Step::Poll, Step::Add(0, 1, 1, 101, 0),
+                      down(vec![Step::Reorg(1, vec![vec![1, 2], vec![101]])]), Step::Poll, Step::Mine(vec![101, 102]), Step::Poll,
+                      Step::Mine(vec![]), Step::Poll]));
+    // 6: two polls in a row are interrupted: each time the chain grows while the tower is down
+    v.push((cfg, vec![reg(0), reg(1), Step::Add(0, 1, 1, 101, 0), Step::Add(1, 1, 1, 103, 2049), Step::Add(1, 2, 2, 102, 0), Step::Mine(vec![1]),
+                      Step::Poll, down(vec![Step::Mine(vec![101, 103]), Step::Mine(vec![2])]), Step::Poll, down(vec![Step::Mine(vec![102])]),
+                      Step::Mine(vec![101, 102, 103]), Step::Poll, Step::Mine(vec![]), Step::Poll]));
+    if thorough {
+        for _ in 0..150 {
+            let mut s = vec![reg(0), reg(1)];
+            let napp = 2 + rng.below(3);
+            let mut pens: Vec<u64> = vec![];
+            let mut late: Vec<(i64, u64, u64)> = vec![];
+            for k in 0..napp {
+                let loc = 1 + k;
+                let pen = 110 + k;
+                pens.push(pen);
+                let user = rng.below(2) as i64;
+                if rng.chance(1, 4) {
+                    late.push((user, loc, pen));
+                } else {
+                    s.push(Step::Add(user, loc, loc, pen as i64, *rng.pick(&[0u64, 300, 2049])));
+                }
+            }
+            let mut locs: Vec<u64> = (1..=napp).collect();
+            while !locs.is_empty() {
+                let take = 1 + rng.below(2).min(locs.len() as u64 - 1);
+                let blk: Vec<u64> = locs.drain(..take as usize).collect();
+                s.push(Step::Mine(blk.clone()));
+                s.push(Step::Poll);
+                let what = |rng: &mut Rng| -> Vec<Step> {
+                    let mut d = vec![];
+                    match rng.below(4) {
+                        0 => d.push(Step::Mine(pens.clone())),
+                        1 => {
+                            d.push(Step::Mine(pens.clone()));
+                            d.push(Step::Mine(vec![600 + rng.below(50)]));
+                        }
+                        2 => d.push(Step::Reorg(1, vec![blk.clone(), pens.clone()])),
+                        _ => d.push(Step::Reorg(1, vec![vec![], blk.clone()])),
+                    }
+                    d
+                };
+                let d = what(rng);
+                s.push(down(d));
+                s.push(Step::Poll);
+                // a late appointment whose trigger is in the cache now
+                if let Some(i) = late.iter().position(|(_, l, _)| blk.contains(l)) {
+                    let (u, l, p) = late.remove(i);
+                    s.push(Step::Add(u, l, l, p as i64, 0));
+                    s.push(down(vec![Step::Mine(pens.clone())]));
+                    s.push(Step::Poll);
+                }
+            }
+            for (u, l, p) in late.drain(..) {
+                s.push(Step::Add(u, l, l, p as i64, 0));
+            }
+            s.push(Step::Mine(pens.clone()));
+            s.push(Step::Poll);
+            s.push(Step::Mine((1..=napp).collect()));
+            s.push(Step::Poll);
+            s.push(Step::Mine(pens.clone()));
+            s.push(Step::Poll);
+            v.push((cfg, s));
+        }
+    }
+    v
+}
+
+/// how a history of the family "the chain moves while the tower is down" is run
+#[derive(Clone, Copy, Default)]
+struct Opts {
+    consistent: bool,
+    nofilter: bool,
+    /// this run is the oracle of the crash run at this crash point: the uninterrupted run over the chain that run ended with
+    oracle_of: Option<u64>,
+}
+
+#[derive(Default)]
+struct Ret {
+    /// (step, first crash point, one past the last) of the uninterrupted run
+    ranges: Vec<(usize, u64, u64)>,
+    /// the steps as performed, the catch-up poll of the restart included
+    resolved: Vec<Step>,
+    /// index in `resolved` of the step that crashed
+    crashed_at: Option<usize>,
+}
+
+#[allow(clippy::too_many_arguments)]
+fn run(hist: usize, cfg: Cfg, steps: &[Step], crash_at: Option<u64>, skip: Option<usize>, poll_after: Option<usize>, init: &[(u64, bitcoin::Block)], out: &mut dyn Write, opts: Opts, ret: &mut Ret) -> u64 {
     teos_common::verif::reset();
     let mut sys = Sys::new(cfg, work_dir(&format!("{hist}")), init);
+    sys.consistent = opts.consistent;
+    sys.nofilter = opts.nofilter;
     // crash points are counted from here (the bootstrap's own writes are not part of the history)
     teos_common::verif::reset();
     evlog::clear();
     evlog::enable(true);
     sys.w.install_sql_trace();
-    let reference = crash_at.is_none() && skip.is_none() && poll_after.is_none();
+    let reference = crash_at.is_none() && skip.is_none() && poll_after.is_none() && opts.oracle_of.is_none();
+    let mut down_done: Option<usize> = None;
     let mut oprecs: Vec<String> = Vec::new();
     let mut last_end = 0u64;
     if let Some(c) = crash_at {
@@ -402,6 +591,9 @@ fn run(hist: usize, cfg: Cfg, steps: &[Step], crash_at: Option<u64>, skip: Optio
     for (i, s) in steps.iter().enumerate() {
         let mut l = Line::new();
         let before = teos_common::verif::count();
+        if down_done == Some(i) {
+            continue;
+        }
         if skip == Some(i) {
             // the request never reaches the tower (its blob is still materialised so that ids stay aligned)
             if let Step::Add(_, _, key, pay, len) = s {
@@ -425,8 +617,12 @@ fn run(hist: usize, cfg: Cfg, steps: &[Step], crash_at: Option<u64>, skip: Optio
             partial = true;
         }
         let ev_before = evlog::snapshot().len();
-        let sc_now = sys.script.clone();
+        let sc_now = sys.effective_script();
         let r = sys.step(s, &mut l);
+        if !matches!(s, Step::Mine(_) | Step::Reorg(..) | Step::WhileDown(_)) {
+            sys.resolved.push(s.clone());
+        }
+        ret.ranges.push((i, before, teos_common::verif::count()));
         if reference {
             let tables = sys.tables();
             line.tok(format!("s{i}:{}:{}", l.0.replace(' ', ","), tables.replace(' ', ",")));
@@ -537,12 +733,24 @@ fn run(hist: usize, cfg: Cfg, steps: &[Step], crash_at: Option<u64>, skip: Optio
             partial_at_crash = partial;
             // the database as the kill left it (read through the separate read-only connection)
             rec_line.tok("CRASHDB").tok(sys.tables());
+            ret.crashed_at = Some(sys.resolved.len() - 1);
+            // the chain moves while the tower is down
+            if let Some(Step::WhileDown(inner)) = steps.get(i + 1) {
+                let mut l2 = Line::new();
+                for st in inner {
+                    let _ = sys.step(st, &mut l2);
+                }
+                down_done = Some(i + 1);
+                rec_line.tok(format!("down={}", inner.len()));
+            }
+            sys.resolved.push(Step::Poll);
             sys.recover(&mut rec_line);
             rec_line.tok(format!("lkb={}", sys.lkb_height())).tok(format!("tip={}", sys.chain.height()));
             rec_line.tok("REC").tok(sys.tables());
         }
     }
     let n = teos_common::verif::count();
+    ret.resolved = sys.resolved.clone();
     let final_tables = sys.tables();
     let mut sends = sys.sends.clone();
     sends.sort();
@@ -567,6 +775,12 @@ fn run(hist: usize, cfg: Cfg, steps: &[Step], crash_at: Option<u64>, skip: Optio
                     l.push_str(" ;");
                 }
                 writeln!(out, "{l}").unwrap();
+            }
+            if let Some(c) = opts.oracle_of {
+                let kind = if skip.is_some() { "CRMINUSX" } else { "CRREFX" };
+                writeln!(out, "{kind} {hist} {c} | FINAL {final_tables} SENDS {} {sends_s}", sends.len()).unwrap();
+                sys.shutdown();
+                return n;
             }
             if let Some(pi) = poll_after {
                 let kind = if skip.is_some() { "CRMINUSP" } else { "CRREFP" };
@@ -640,7 +854,7 @@ fn main() {
                 }
             }
         }
-        let n = run(h, *cfg, steps, None, None, None, &init, &mut out);
+        let n = run(h, *cfg, steps, None, None, None, &init, &mut out, Opts::default(), &mut Ret::default());
         // the same history without each API request (the oracle for a request lost in a crash); when blocks
         // were mined and not yet polled at that point, also with the poll a restart would make at once
         let mut pending = false;
@@ -651,23 +865,72 @@ fn main() {
                 _ => {}
             }
             if matches!(st, Step::Api(Op::Register(_)) | Step::Add(..)) {
-                run(h, *cfg, steps, None, Some(i), None, &init, &mut out);
+                run(h, *cfg, steps, None, Some(i), None, &init, &mut out, Opts::default(), &mut Ret::default());
                 if pending {
-                    run(h, *cfg, steps, None, None, Some(i), &init, &mut out);
-                    run(h, *cfg, steps, None, Some(i), Some(i), &init, &mut out);
+                    run(h, *cfg, steps, None, None, Some(i), &init, &mut out, Opts::default(), &mut Ret::default());
+                    run(h, *cfg, steps, None, Some(i), Some(i), &init, &mut out, Opts::default(), &mut Ret::default());
                 }
             }
         }
         // every crash point of the history; template 4 has thousands of identical ones: sample its middle
         if let Some((_, oc)) = only {
-            run(h, *cfg, steps, Some(oc), None, None, &init, &mut out);
+            run(h, *cfg, steps, Some(oc), None, None, &init, &mut out, Opts::default(), &mut Ret::default());
             continue;
         }
         let stride = if n > 400 && !thorough { (n / 200).max(1) } else { 1 };
         let mut c = 0;
         while c < n {
-            run(h, *cfg, steps, Some(c), None, None, &init, &mut out);
+            run(h, *cfg, steps, Some(c), None, None, &init, &mut out, Opts::default(), &mut Ret::default());
             c += stride;
+        }
+    }
+    // the family "the chain moves while the tower is down"
+    let fam = down_family(&mut Rng::new(seed ^ 0xD0C03), thorough);
+    let copts = Opts { consistent: true, nofilter: false, oracle_of: None };
+    for (k, (cfg, steps)) in fam.iter().enumerate() {
+        let h = DOWN_BASE + k;
+        match only {
+            Some((oh, _)) => {
+                if oh != h {
+                    continue;
+                }
+            }
+            None => {
+                if k as u64 % nshards != shard {
+                    continue;
+                }
+            }
+        }
+        let mut ret = Ret::default();
+        run(h, *cfg, steps, None, None, None, &init, &mut out, copts, &mut ret);
+        for (i, st) in steps.iter().enumerate() {
+            if matches!(st, Step::Api(Op::Register(_)) | Step::Add(..)) {
+                run(h, *cfg, steps, None, Some(i), None, &init, &mut out, copts, &mut Ret::default());
+            }
+        }
+        for (i, first, end) in ret.ranges.clone() {
+            if !matches!(steps.get(i + 1), Some(Step::WhileDown(_))) {
+                continue;
+            }
+            for c in first..end {
+                if let Some((_, oc)) = only {
+                    if oc != c {
+                        continue;
+                    }
+                }
+                // the crash run, then its oracle: the uninterrupted run over the chain the crash run ended with
+                let mut buf: Vec<u8> = Vec::new();
+                let mut cr = Ret::default();
+                run(h, *cfg, steps, Some(c), None, None, &init, &mut buf, copts, &mut cr);
+                let oopts = Opts { consistent: true, nofilter: true, oracle_of: Some(c) };
+                run(h, *cfg, &cr.resolved, None, None, None, &init, &mut out, oopts, &mut Ret::default());
+                if let Some(ci) = cr.crashed_at {
+                    if matches!(cr.resolved.get(ci), Some(Step::Add(..))) {
+                        run(h, *cfg, &cr.resolved, None, Some(ci), None, &init, &mut out, oopts, &mut Ret::default());
+                    }
+                }
+                out.write_all(&buf).unwrap();
+            }
         }
     }
     out.flush().unwrap();
